@@ -5,6 +5,15 @@
   `PdsVerif/Model/Shorten.lean` (block interpreter L2, `Program` / `encode` / `sem`).
   Constants, opcodes and tables come from `PdsVerif/Generated/ShortenConsts.lean`, regenerated from
   `src/pydrobert/speech/_sphere.py` on every run.
+
+  Everything is over unbounded `Int` / `Nat`: all residual values and widths, block sizes, channel counts,
+  mean lengths, bit shifts, LPC orders and command sequences.  `WF` (Model/Shorten.lean) is what a
+  conforming encoder emits: version 1-2, type < 9, >= 1 channel, block size >= 1, residual lists as long as
+  the current block, BLOCKSIZE only at a frame boundary and within the allocated size, QLPC order <= maxnlpc
+  in blocks no shorter than the history `nwrap = max(3, maxnlpc)`.
+  NumPy's `int32` cells are modelled by `Int` plus a monitor (`Prog.chk`, `runM`, reported by the driver)
+  that provably never changes a result (`monitor_irrelevant`); streams on which it is false are outside
+  the correspondence (hypothesis-gap cases in the evidence).
 -/
 import PdsVerif.Lemmas.ShortenInterp
 import PdsVerif.Lemmas.ShortenWord
@@ -90,6 +99,19 @@ example : WF exampleProgram := by
 
 example : sem false exampleProgram =
     [3, 6, 5, 17, 11, 18, 18, 24, 0, 28, 0, 48, 0, -52, 0, 88, 2, 102, 4, 116] := by decide
+
+/- The hypothesis `nwrap ≤ blocksize` that `WF` puts on QLPC blocks cannot be dropped
+   (the statement `∀ p, WF' p → decode (encode p) = sem p` with QLPC allowed in shorter blocks is FALSE,
+   of the model and of the code alike): `copy_shortened_samples` subtracts the running-mean offset from
+   the history cells in place and never adds it back, which is invisible only when the block overwrites the
+   whole history.  Witness (the implementation returns the same `303`): -/
+def shortQlpcProgram : Program :=
+  { hdr := ⟨2, TYPE_S16HL, 1, 3, 2, 1⟩, skip := [],
+    cmds := [.diff 0 5 [100, 100, 100], .blocksize 1, .qlpc 0 [32, 0] [0], .diff 3 0 [0]] }
+
+example : sem false shortQlpcProgram = [100, 100, 100, 101, 103] ∧
+    (match decodeBits 2 false (encode shortQlpcProgram) with | .ok l => l | .error _ => []) =
+      [100, 100, 100, 101, 303] := by decide +kernel
 
 /-- the same through the word reader: the bytes `encodeFile` writes (magic, version byte, bit stream
     zero-padded to whole 32-bit words) decode to `sem` with the decoder that exists -/
